@@ -126,7 +126,12 @@ pub fn traps_cmd(a: &Args) {
             // a valid segment after a malformed group starts with an ASCII character (so the group stays one sequence)
             let mut v = valid_pool[rng.below(valid_pool.len())].to_string();
             if j > 0 {
-                v.insert(0, ['a', 'z', ' ', '7'][rng.below(4)]);
+                // (UTF-16: any unit that is not a surrogate keeps the group before it one sequence -- units of every byte shape)
+                if enc == "utf8" {
+                    v.insert(0, ['a', 'z', ' ', '7'][rng.below(4)]);
+                } else {
+                    v.insert(0, ['a', '\u{8080}', '\u{4e80}', '\u{8f9e}', '\u{bfbf}', '\u{80bf}', '\u{a080}', '\u{bf}'][rng.below(8)]);
+                }
             }
             bytes.extend_from_slice(&encode(&v, enc, false));
             valid.push(v);
